@@ -317,6 +317,7 @@ class Interp:
         self.overrides = overrides or {}  # ("module", "name") -> value
         self._mod_objs = {}
         self._gen_stack = []
+        self.empty_loops = False   # loops over unknown collections also take the zero-iteration path
         self._len_source = {}
         self.ext_summaries = {}   # "urllib.parse.unquote" -> fn(interp, pos, kw, node)
         self.hole_free_of = ""    # characters the symbolic holes are assumed not to contain
@@ -526,6 +527,8 @@ class Interp:
             elif isinstance(it, (Opaque, RepList)):
                 self.trace.events.append(("loop-opaque", it, st))
                 items = [Opaque("%s[]" % getattr(it, "name", "rep"), "obj")]
+                if self.empty_loops and isinstance(it, Opaque) and not self.decide(ACond("nonempty", it, None, st), st):
+                    items = []
             elif isinstance(it, Sym):
                 self.trace.events.append(("loop-opaque", it, st))
                 items = [Sym(it.name + "[]", "any", None)]
@@ -750,7 +753,7 @@ class Interp:
         if node.id in ("str", "int", "list", "tuple", "dict", "set", "bytes", "float", "bool", "object"):
             return TypeVal(node.id)
         if node.id in ("isinstance", "len", "map", "locals", "hasattr", "any", "all", "sorted", "enumerate",
-                       "range", "zip", "getattr", "iter", "print", "min", "max", "repr", "type", "ord", "chr", "hex", "setattr", "delattr", "next", "vars", "callable", "sum", "abs", "hash", "float", "slice"):
+                       "range", "zip", "getattr", "iter", "print", "min", "max", "repr", "type", "ord", "chr", "hex", "setattr", "delattr", "next", "vars", "callable", "sum", "abs", "hash", "float", "slice", "open"):
             return Builtin(node.id)
         if node.id in ("ValueError", "TypeError", "KeyError", "NotImplementedError", "Exception", "StopIteration"):
             return TypeVal(node.id)
@@ -891,6 +894,13 @@ class Interp:
                     coll = self._len_source.get(y.name)
                     if coll is not None:
                         return AStr([Rep(coll, x, "")])
+        if isinstance(a, (int, float)) and isinstance(b, (int, float)) and not isinstance(a, bool) and not isinstance(b, bool):
+            if isinstance(op, ast.Div):
+                if b == 0:
+                    raise RaiseEx("ZeroDivisionError", "division by zero", node)
+                return a / b
+            if isinstance(op, ast.Mult):
+                return a * b
         if isinstance(a, int) and isinstance(b, int) and not isinstance(a, bool) and not isinstance(b, bool):
             if isinstance(op, ast.RShift) and 0 <= b < 256:
                 return a >> b
@@ -1361,6 +1371,8 @@ class Interp:
             v = pos[0]
             if isinstance(v, int):
                 return v
+            if isinstance(v, float):
+                return int(v)
             if isinstance(v, str):
                 try:
                     return int(v)
@@ -1372,6 +1384,10 @@ class Interp:
                 s = v.parts[0]
                 return Sym(s.name, "int", s.truthy)
             raise Unsupported("int(%r)" % (v,))
+        if name == "bool":
+            if not pos:
+                return False
+            return bool(self.decide(pos[0], node))
         if name == "float" and pos:
             if isinstance(pos[0], (int, float)) and not isinstance(pos[0], bool):
                 return float(pos[0])
@@ -1412,6 +1428,8 @@ class Interp:
             v = pos[0] if pos else ()
             if isinstance(v, (list, tuple)):
                 return tuple(v)
+            if isinstance(v, (Opaque, Sym)):
+                return Opaque(v.name, "tuple", getattr(v, "origin", None))
             raise Unsupported("tuple(%r)" % (v,))
         if name in ("list", "tuple") and pos and isinstance(pos[0], (StreamVal, HostIter)):
             out_ = list(pos[0])
@@ -1527,6 +1545,14 @@ class Interp:
                 except ValueError:
                     raise RaiseEx("ValueError", "could not convert string to float: %r" % pos[0], node)
             raise Unsupported("float(%r)" % (pos[0],))
+        if name == "open" and pos:
+            # a file object: an opaque line source that remembers the path it was opened on and the mode
+            mode = pos[1] if len(pos) > 1 else kw.get("mode", "r")
+            fo = Opaque("open(%s)" % _nm(pos[0]), "iter")
+            fo.attrs["name"] = pos[0]
+            fo.attrs["mode"] = mode
+            self.trace.events.append(("open", pos[0], mode, node))
+            return fo
         if name == "slice" and 1 <= len(pos) <= 3 and all(x is None or (isinstance(x, int) and not isinstance(x, bool)) for x in pos):
             return slice(*pos)
         if name == "abs" and pos and isinstance(pos[0], (int, float)):
@@ -1571,6 +1597,11 @@ class Interp:
             return HostIter(zip(*pos), "zip")
         if name == "zip" and all(isinstance(x, (list, tuple)) for x in pos):
             return [tuple(t) for t in zip(*pos)]
+        if name == "zip" and pos and any(isinstance(x, (list, tuple)) for x in pos) and all(isinstance(x, (list, tuple, Opaque, Sym)) for x in pos):
+            # an unknown sequence zipped with known ones: as long as the shortest known one, its items named by position
+            n_ = min(len(x) for x in pos if isinstance(x, (list, tuple)))
+            cols = [list(x) if isinstance(x, (list, tuple)) else [Sym("%s[%d]" % (x.name, i_), "any", None) for i_ in range(n_)] for x in pos]
+            return [tuple(c[i_] for c in cols) for i_ in range(n_)]
         if name == "getattr":
             o, a = pos[0], pos[1]
             if isinstance(o, (Opaque, Sym)) and isinstance(a, str):
